@@ -4,6 +4,7 @@
 //! the real code, and log ndjson traces that TLC validates against the specification.
 
 mod crash;
+mod csvrt;
 mod gen;
 mod ledger;
 mod model;
@@ -143,6 +144,28 @@ fn main() {
                 }
             }
             println!("determinism records {n}");
+        }
+        "csv-roundtrip" => {
+            // input: abstract transaction lists emitted by MC_CsvFormat (one JSON object per line)
+            let inp = arg(&args, "--in").expect("--in");
+            let out = arg(&args, "--out").expect("--out");
+            let seed: u64 = arg(&args, "--seed").and_then(|s| s.parse().ok()).unwrap_or(1);
+            let reps: u64 = arg(&args, "--reps").and_then(|s| s.parse().ok()).unwrap_or(1);
+            let mut cases: Vec<(u64, serde_json::Value)> = Vec::new();
+            for (n, line) in std::io::BufReader::new(std::fs::File::open(&inp).unwrap()).lines().enumerate() {
+                let line = line.unwrap();
+                if !line.trim().is_empty() {
+                    for r in 0..reps {
+                        cases.push((n as u64 * reps + r, serde_json::from_str(&line).unwrap()));
+                    }
+                }
+            }
+            let recs = par_map(&cases, threads, |(n, c)| csvrt::roundtrip_record(c, *n, seed));
+            let mut w = BufWriter::new(std::fs::File::create(out).unwrap());
+            for r in &recs {
+                writeln!(w, "{}", serde_json::to_string(r).unwrap()).unwrap();
+            }
+            println!("csv round trips {}", recs.len());
         }
         "rowrates" => {
             let seed: u64 = arg(&args, "--seed").and_then(|s| s.parse().ok()).unwrap_or(1);
